@@ -39,9 +39,26 @@ impl Token<'_> {
     }
 }
 
+/// How deep expressions and statements may be nested inside each other.
+/// Parsing (and later compiling) is recursive, so without a limit a text like "((((((…"
+/// overflows the native stack instead of yielding a syntax error.
+const MAX_NESTING_DEPTH: usize = 200;
+
+/// How deep the resulting syntax tree may be. A chain like 1 + 2 + 3 + … takes no recursion to
+/// parse, but it yields a tree that nests to the left once for every operator, and compiling
+/// (or just dropping) that tree is recursive again.
+const MAX_TREE_DEPTH: usize = 1000;
+
 struct Parser<'a> {
     tokenizer: Tokenizer<'a>,
     current_token: Token<'a>,
+
+    /// The current nesting depth of the expression or statement that is being parsed
+    depth: usize,
+
+    /// The depth of the deepest (sub)tree that was completed since this was last reset
+    /// Used to find out how deep the tree is that is currently under construction
+    child_depth: usize,
 }
 
 impl<'a> Parser<'a> {
@@ -52,6 +69,8 @@ impl<'a> Parser<'a> {
         Parser {
             tokenizer,
             current_token,
+            depth: 0,
+            child_depth: 0,
         }
     }
 
@@ -90,6 +109,37 @@ impl<'a> Parser<'a> {
     /// Parse an expression
     #[inline]
     fn parse_expr(&mut self, precedence: Precedence) -> Result<Expr, ParseError> {
+        self.nested(|parser| parser.parse_nested_expr(precedence))
+    }
+
+    /// Runs the given parse function one nesting level deeper, unless that is too deep
+    #[inline]
+    fn nested<T>(
+        &mut self,
+        parse: impl FnOnce(&mut Self) -> Result<T, ParseError>,
+    ) -> Result<T, ParseError> {
+        self.depth += 1;
+        let result = if self.depth > MAX_NESTING_DEPTH {
+            Err(ParseError::SyntaxError(
+                "programma is te diep genest".to_string(),
+            ))
+        } else {
+            parse(self)
+        };
+        self.depth -= 1;
+        result
+    }
+
+    fn parse_nested_expr(&mut self, precedence: Precedence) -> Result<Expr, ParseError> {
+        // From here on child_depth is about the parts of this expression only
+        let depth_of_siblings = std::mem::take(&mut self.child_depth);
+        let result = self.parse_measured_expr(precedence);
+        // ... and afterwards this expression is a (completed) part itself
+        self.child_depth = self.child_depth.max(depth_of_siblings);
+        result
+    }
+
+    fn parse_measured_expr(&mut self, precedence: Precedence) -> Result<Expr, ParseError> {
         let mut left = match self.current_token {
             Token::Int(s) => self.parse_int_expression(s),
             Token::Float(s) => self.parse_float_expression(s),
@@ -116,6 +166,9 @@ impl<'a> Parser<'a> {
             }
         };
 
+        // the depth of the tree in `left`: one more than its deepest part
+        let mut tree_depth = 1 + std::mem::take(&mut self.child_depth);
+
         // keep going
         while self.current_token != Token::Semi && precedence < self.current_token.precedence() {
             left = match self.current_token {
@@ -135,16 +188,41 @@ impl<'a> Parser<'a> {
                 Token::Assign => self.parse_assign_expr(left)?,
                 Token::OpenParen => self.parse_call_expr(left)?,
                 Token::OpenBracket => self.parse_index_expr(left)?,
-                _ => return Ok(left),
+                _ => break,
             };
+
+            // `left` got wrapped together with whatever parts were parsed just now
+            tree_depth = 1 + tree_depth.max(std::mem::take(&mut self.child_depth));
+            if tree_depth > MAX_TREE_DEPTH {
+                break;
+            }
         }
 
+        if tree_depth > MAX_TREE_DEPTH {
+            return Err(ParseError::SyntaxError(
+                "expressie is te diep genest".to_string(),
+            ));
+        }
+
+        self.child_depth = tree_depth;
         Ok(left)
     }
 
     /// Parse a single statement
     #[inline]
     fn parse_statement(&mut self) -> Result<Stmt, ParseError> {
+        self.nested(|parser| parser.parse_nested_statement())
+    }
+
+    fn parse_nested_statement(&mut self) -> Result<Stmt, ParseError> {
+        // A statement is one level of the tree as well (see parse_nested_expr)
+        let depth_of_siblings = std::mem::take(&mut self.child_depth);
+        let result = self.parse_measured_statement();
+        self.child_depth = (1 + self.child_depth).max(depth_of_siblings);
+        result
+    }
+
+    fn parse_measured_statement(&mut self) -> Result<Stmt, ParseError> {
         let stmt = match self.current_token {
             Token::Declare => self.parse_decl_statement()?,
             Token::OpenBrace => Stmt::Block(self.parse_block_statement()?),
@@ -236,7 +314,9 @@ impl<'a> Parser<'a> {
             if self.current_token == Token::If {
                 // Parse just the nested if-expression: parsing a whole statement here would swallow the
                 // separator (and any operator) that follows the chain as a whole
-                Some(vec![Stmt::Expr(self.parse_if_expr()?)])
+                Some(vec![Stmt::Expr(
+                    self.nested(|parser| parser.parse_if_expr())?,
+                )])
             } else {
                 Some(self.parse_block_statement()?)
             }
